@@ -17,6 +17,8 @@ AltBits(n) == LET RECURSIVE S(_)
                   S(j) == IF j > n THEN 0 ELSE Pow2(j - 1) + S(j + 2)
               IN S(1)
 Masks(n) == IF n = 0 THEN {0} ELSE {0, Pow2(n) - 1, AltBits(n)}
+MaxRows == 12       \* arrays are not grown beyond this by add / concat (the scope stays small)
+ConcatSize(kind, o, a) == CASE kind = 0 -> 0 [] kind = 1 -> N(a) [] kind = 3 -> 2 * N(a) [] OTHER -> N(o) + N(a)
 
 (* events with receiver x; res = the name a returned array will get *)
 ObjEvents(ww, os, x, res) ==
@@ -77,8 +79,8 @@ PairEvents(ww, os, x, y, res) ==
     ELSE
        {Ev("eq", x, y, "", <<>>, <<>>) : q \in (IF On("eq") THEN {1} ELSE {})}
     \cup {Ev("as_dataframe", x, y, res, <<k>>, <<>>) : k \in (IF On("as_dataframe") THEN {0, 1} ELSE {})}
-    \cup {Ev("add", x, y, "", <<>>, <<>>) : q \in (IF On("add") /\ (SameColSet(o, a) \/ ~IsInst(a.cls, o.cls)) THEN {1} ELSE {})}
-    \cup {Ev("concat", x, y, res, <<k>>, <<>>) : k \in (IF On("concat") /\ SameColSet(o, a) THEN Range(M.concat) ELSE {})}
+    \cup {Ev("add", x, y, "", <<>>, <<>>) : q \in (IF On("add") /\ (SameColSet(o, a) \/ ~IsInst(a.cls, o.cls)) /\ N(o) + N(a) <= MaxRows THEN {1} ELSE {})}
+    \cup {Ev("concat", x, y, res, <<k>>, <<>>) : k \in (IF On("concat") /\ SameColSet(o, a) THEN {k \in Range(M.concat) : ConcatSize(k, o, a) <= MaxRows} ELSE {})}
 
 ClassEvents(ww, res) ==
     LET M == Menu(ww)  ops == Range(M.ops) IN
